@@ -33,6 +33,12 @@ def block(seq):
 def cases(rng, tier):
     for sq in gen.sparse_charge_seqs(rng, 40 if tier == "quick" else 400):
         yield Case(block(sq), {"kind": "sparse-charges"})
+    # long, sparsely charged chains whose few charges sit together (three or more inside one blob)
+    for sq in gen.sparse_clustered_seqs(rng, 30 if tier == "quick" else 300):
+        yield Case(block(sq), {"kind": "sparse-clustered-charges"})
+    # lengths at / next to powers of two and round thousands, and lengths whose BLOB COUNT (N-4, N-5) is such a number
+    for sq in gen.boundary_seqs(rng, tier != "quick"):
+        yield Case(["q delta " + sq, "q dform %s 5" % sq, "q dform %s 6" % sq], {"kind": "boundary-length"})
     # the same query several times in a row on one object
     for c in gen.repeated_call_cases(rng, 8 if tier == "quick" else 60, ['delta'], gen.CLAMP_BAND[:8] if False else ()):
         yield c
